@@ -6,6 +6,7 @@ package main
 //   WF <keyOk> <lenOk> <unmodified> <sameKey> <outcome>      outcome in same|different|err|panic
 
 import (
+	"sync"
 	"bytes"
 	"crypto/rand"
 	"encoding/hex"
@@ -159,6 +160,48 @@ func init() {
 				if err != nil || !bytes.Equal(pw.Private, wl.Private) || !bytes.Equal(pw.Public, wl.Public) || pw.Address() != wl.Address() {
 					c.Violate("C20", "pem-roundtrip-differs", fmt.Sprintf("PEM round trip: err=%v", err), nil)
 				}
+			}
+		}
+		// several wallets saved at the same time (two clients of one process): each file reads back as ITS wallet
+		{
+			rounds := 150
+			if c.Tier == "thorough" {
+				rounds = 1500
+			}
+			var wg sync.WaitGroup
+			var mu sync.Mutex
+			bad := ""
+			for g := 0; g < 8; g++ {
+				wg.Add(1)
+				go func(g int) {
+					defer wg.Done()
+					key := make([]byte, 16+16*(g%2))
+					rand.Read(key)
+					path := filepath.Join(dir, fmt.Sprintf("conc%d", g))
+					h := fileoperations.New(fileoperations.Config{WalletPath: path, WalletPasswd: hex.EncodeToString(key)}, aeswrapper.New())
+					for r := 0; r < rounds; r++ {
+						wl, _ := wallet.New()
+						if err := h.SaveWallet(&wl); err != nil {
+							continue
+						}
+						got, err := h.ReadWallet()
+						if err != nil || !bytes.Equal(got.Private, wl.Private) || !bytes.Equal(got.Public, wl.Public) {
+							mu.Lock()
+							if bad == "" {
+								bad = fmt.Sprintf("goroutine %d round %d: saved one wallet, the file reads back as another (err %v)", g, r, err)
+							}
+							mu.Unlock()
+							return
+						}
+					}
+				}(g)
+			}
+			wg.Wait()
+			c.Rep.Evals += 8 * rounds
+			c.Count("concurrent-saves")
+			c.Distinct("concurrent-saves")
+			if bad != "" {
+				c.Violate("C20", "concurrent-saves-mix-wallets", bad, map[string]interface{}{"section": "walletfile", "kind": "concurrent-saves"})
 			}
 		}
 		c.Sample(map[string]interface{}{"kind": "truncate", "pos": 5, "expected": "err"})
